@@ -27,11 +27,12 @@ type core struct {
 	verifyM                                   *types.Func
 
 	// discovered
-	storeCalls []ssa.CallInstruction // Store/Swap/CAS on Dials.value
-	storeFns   []*ssa.Function       // functions containing them, other than Config
-	monitor    *ssa.Function         // goroutine root from which the store functions are reachable
-	cbLoop     *ssa.Function         // function that invokes handler-typed values
-	ok         bool
+	storeCalls     []ssa.CallInstruction // Store/Swap/CAS on Dials.value
+	storeFns       []*ssa.Function       // functions containing them, other than Config
+	monitor        *ssa.Function         // goroutine root from which the store functions are reachable
+	cbLoop         *ssa.Function         // function that invokes handler-typed values
+	instFrameCache *instFrame
+	ok             bool
 }
 
 const ruleAnchors = "anchors"
@@ -441,12 +442,18 @@ func (k *core) skipFlagOrigins() (args []ssa.Value, origins []flagOrigin) {
 		}
 		origins = append(origins, flagOrigin{V: v, Kind: "other"})
 	}
+	fr := k.frame()
 	for _, sf := range k.storeFns {
-		for _, ci := range callsToFn(k.monitor, sf) {
+		for _, ci := range callsToFn(fr.fn, sf) {
 			for ai, a := range ci.Common().Args {
 				if ai < len(sf.Params) {
 					if b, ok := sf.Params[ai].Type().Underlying().(*types.Basic); ok && b.Kind() == types.Bool {
 						args = append(args, a)
+						if ma := fr.toMonitor(a); ma != a {
+							// the flag reaches the storing function through the install frame's parameter
+							args = append(args, ma)
+							a = ma
+						}
 						walk(a)
 					}
 				}
@@ -849,7 +856,7 @@ func (k *core) checkParamsReadOnly(rule string) {
 // registered callback skip a version and breaks old == predecessor).
 func (k *core) checkEveryInstallAnnounced(rule string) {
 	c := k.c
-	m := k.monitor
+	m := k.frame().fn
 	n := 0
 	for _, sf := range k.storeFns {
 		for _, ci := range callsToFn(m, sf) {
@@ -1130,4 +1137,71 @@ func sharesRangeElem(a, b ssa.Value) bool {
 	}
 	ra, rb := root(a), root(b)
 	return ra == rb || sameValue(ra, rb)
+}
+
+// ---- install frame ------------------------------------------------------------------------------------
+//
+// The monitor reacts to a value update by calling the storing function and announcing the result. When that
+// arm of the monitor is folded into a helper method (one call site in the monitor, parameters forwarded), the
+// helper is the *install frame*: rules about the call of the storing function and the event built from its
+// result look at the frame, and a frame parameter stands for the monitor's argument at the one call site.
+
+type instFrame struct {
+	fn   *ssa.Function
+	site ssa.CallInstruction          // the call in the monitor (nil when the monitor is the frame)
+	up   map[*ssa.Parameter]ssa.Value // frame parameter -> the monitor's argument
+}
+
+func (k *core) frame() *instFrame {
+	if k.instFrameCache != nil {
+		return k.instFrameCache
+	}
+	fr := &instFrame{fn: k.monitor, up: map[*ssa.Parameter]ssa.Value{}}
+	k.instFrameCache = fr
+	direct := false
+	for _, sf := range k.storeFns {
+		if len(callsToFn(k.monitor, sf)) > 0 {
+			direct = true
+		}
+	}
+	if direct {
+		return fr
+	}
+	// a helper that calls the storing function and is called exactly once, from the monitor
+	for _, f := range k.w.funcsIn("") {
+		if f == k.monitor || f == k.config {
+			continue
+		}
+		calls := false
+		for _, sf := range k.storeFns {
+			if f != sf && len(callsToFn(f, sf)) > 0 {
+				calls = true
+			}
+		}
+		if !calls {
+			continue
+		}
+		sites := callsToFn(k.monitor, f)
+		if len(sites) != 1 || len(k.cg.in[f]) != 1 {
+			continue
+		}
+		fr.fn, fr.site = f, sites[0]
+		for pi, p := range f.Params {
+			if pi < len(sites[0].Common().Args) {
+				fr.up[p] = sites[0].Common().Args[pi]
+			}
+		}
+		return fr
+	}
+	return fr
+}
+
+// toMonitor maps a value of the install frame to the monitor's value it stands for.
+func (fr *instFrame) toMonitor(v ssa.Value) ssa.Value {
+	if p, ok := v.(*ssa.Parameter); ok {
+		if a, ok := fr.up[p]; ok {
+			return a
+		}
+	}
+	return v
 }
